@@ -17,8 +17,8 @@ Theorem C09_multistage_terminates :
          (forall m k : Z, 0 <= T m k) ->
          forall N S_ : Z,
          1 <= N ->
-         forall label : nat -> MSPot.storage,
-         (forall d : nat, label d = MSPot.RAM \/ label d = MSPot.DISK) ->
+         forall label : nat -> Actions.storage,
+         (forall d : nat, label d = Actions.RAM \/ label d = Actions.DISK) ->
          forall (s : MSPot.st) (x : MSPot.xst),
          MSPot.Inv T N S_ label s x ->
          let (s', o) := MSPot.resume adv N S_ label s in
